@@ -68,7 +68,7 @@ func (w *ledgerWorld) monitorWithdraw(prev *ledgerSnap, sid, asset string, x sdk
 		w.env.Outcome("withdraw.within-balance.ok")
 		return
 	}
-	if strings.HasPrefix(err.Error(), "panic:") { // the SDK's 256-bit guards: not the property's matter (see registry assumptions)
+	if ledgerBoundPanic(err) { // the SDK's 256-bit guards: not the property's matter (see registry assumptions)
 		return
 	}
 	sig := withdrawSig(prev, sid, asset, x.BigInt())
@@ -147,7 +147,7 @@ func (w *ledgerWorld) directedWithdrawAfterReward() {
 	w.env.Outcome(fmt.Sprintf("%s.row total=%s,withdrawable=%s,published-minus-deposit=%s", tag, row.total, row.withdrawable, pub))
 	_, werr := w.directedWithdraw(tag, st, ai, all)
 	w.env.Eval("C03.withdraw")
-	if werr != nil && !strings.HasPrefix(werr.Error(), "panic:") {
+	if werr != nil && !ledgerBoundPanic(werr) {
 		w.env.Violate("C03.withdraw", withdrawSig(before, sid, asset, all.BigInt()),
 			fmt.Sprintf("after a deposit of %s and a native-restaking balance increase of %s the withdrawable balance of %s is %s, but withdrawing it is refused: %v (published staking total %s: UpdateNSTBalance(+x) raises the staker's deposit, never the asset's StakingTotalAmount)",
 				dep, reward, sid, all, werr, before.totals[asset]), w.hist)
@@ -294,7 +294,7 @@ func (w *ledgerWorld) directedRoundingGain(kinds map[string]int) {
 	if !all.IsPositive() {
 		return
 	}
-	if _, werr := w.directedWithdraw(tag, x, ai, all); werr != nil && !strings.HasPrefix(werr.Error(), "panic:") {
+	if _, werr := w.directedWithdraw(tag, x, ai, all); werr != nil && !ledgerBoundPanic(werr) {
 		w.env.Violate("C03.withdraw", withdrawSig(prev, sidOf(x), asset, all.BigInt()),
 			fmt.Sprintf("staker %s has total deposit %s and withdrawable balance %s; withdrawing the withdrawable balance is refused: %v", sidOf(x), row.total, row.withdrawable, werr), w.hist)
 	}
